@@ -46,6 +46,8 @@ def coq_term(t):
     if k == 'var':
         return f"TVar {t[1]}"
     if k == 'map':
+        if t[1][0] == 'p':
+            return coq_term(t[2])          # same(t): a @predicate function returning its argument, used as a value: the value of t
         m = f"MField {t[1][1]}" if t[1][0] == 'f' else f"MIdx {t[1][1]}"
         return f"TMap ({m}) ({coq_term(t[2])})"
     if k == 'flat':
